@@ -101,6 +101,9 @@ class Typer:
                 return [DIGEST]
             if mname == 'encode' and isinstance(e.func, ast.Attribute):
                 return self.classify_text(e.func.value, depth + 1)
+            if mname == 'join' and isinstance(e.func, ast.Attribute) and isinstance(e.func.value, ast.Constant) and e.func.value.value == b'' and len(e.args) == 1:
+                k = self.classify_iter_item(e.args[0], depth + 1)     # a concatenation of fixed-length items is a sequence of such feeds
+                return k if k in ([DIGEST], [FIXED], [DIGEST, DIGEST]) else [RAW]
             if mname == 'tobytes':
                 return [RAW]
             if mname == 'read':
@@ -392,14 +395,14 @@ BRANCH_COMPONENTS = {
     '(bool, int, float, complex)': ['repr(data)'],
     't is str': ['data.encode()'],
     't is bytes': ['sha1(data)'],
-    '(list, tuple)': [('nutils_hash(item)', 'map(nutils_hash, data)'), ('for item in data', 'in map(nutils_hash, data)', 'in enumerate(data)')],   # a tuple lists alternative spellings
+    '(list, tuple)': ['nutils_hash', 'data'],
     't is dict': ['nutils_hash(k)', 'nutils_hash(v)', 'data.items()', 'sorted('],
     '(set, frozenset)': ['nutils_hash', 'data', 'sorted('],
     'io.BufferedIOBase': ['data.tell()', 'data.seek(0)', 'data.read(', 'data.seek(pos)'],
     'types.MethodType': ['nutils_hash(data.__self__)', 'nutils_hash(data.__name__)'],
     'numpy.ndarray': ['data.shape', 'data.dtype', 'data.tobytes()'],
     'dataclasses.is_dataclass(t)': ['field.name', 'getattr(data, field.name)', 'dataclasses.fields(t)', 'sorted('],
-    "hasattr(data, '__getnewargs__')": ['data.__getnewargs__()', 'nutils_hash(arg)'],
+    "hasattr(data, '__getnewargs__')": ['data.__getnewargs__()', 'nutils_hash'],
 }
 
 
